@@ -213,6 +213,24 @@ def run_case(case, ctx, bm):
     taub = guard("statics.body", "statics.body", lambda: arm.staticForcesBody(Wrench(Wv.reshape((6, 1)).copy()), th.copy()))
     if taub is not None:
         cmp("statics.body", "statics.body.transpose/" + tag, np.asarray(taub, dtype=float).reshape(-1), Jb_fd.T @ Wv, nb * float(np.linalg.norm(Wv)))
+    # the same with the arm parked at another configuration: an explicit joint argument decides, not the arm's current state
+    th_other = np.clip(th + np.linspace(0.3, -0.4, n), model.lo, model.hi)
+    arm.FK(th_other.copy())
+    taub2 = guard("statics.body", "statics.body.parked_elsewhere", lambda: arm.staticForcesBody(Wrench(Wv.reshape((6, 1)).copy()), th.copy()))
+    if taub2 is not None:
+        cmp("statics.body", "statics.body.transpose.parked_elsewhere/" + tag, np.asarray(taub2, dtype=float).reshape(-1), Jb_fd.T @ Wv, nb * float(np.linalg.norm(Wv)))
+    arm.FK(th_other.copy())
+    taus2 = guard("statics.power", "statics.parked_elsewhere", lambda: arm.staticForces(Wrench(Wv.reshape((6, 1)).copy()), th.copy()))
+    if taus2 is not None:
+        cmp("statics.power", "statics.transpose.parked_elsewhere/" + tag, np.asarray(taus2, dtype=float).reshape(-1), Js_fd.T @ Wv, nrm * float(np.linalg.norm(Wv)))
+    arm.FK(th_other.copy())
+    for nm, fn, Jw in (("jacobianBody", lambda: arm.jacobianBody(th.copy()), Jb_fd), ("jacobian", lambda: arm.jacobian(th.copy()), Js_fd),
+                       ("jacobianEETrans", lambda: arm.jacobianEETrans(th.copy()), np.vstack([Js_fd[:3, :], dp]))):
+        Jx = guard("body", nm + ".parked_elsewhere", fn)
+        if Jx is not None:
+            cmp("body", nm + ".parked_elsewhere/" + tag, Jx, Jw, float(np.linalg.norm(Jw)))
+        arm.FK(th_other.copy())
+    arm.FK(th.copy())
     sv = np.linalg.svd(Js_fd, compute_uv=False)
     if n >= 6 and sv[5] >= 0.05:
         c = sv[0] / sv[5]
